@@ -16,6 +16,7 @@ parser slot).  Hypotheses that are NOT discharged in Lean, and that the correspo
 -/
 import PoetryVerif.Proofs.Conc
 import PoetryVerif.Proofs.ConcMarker
+import PoetryVerif.Proofs.ConcTaint
 
 set_option linter.unusedSimpArgs false
 set_option linter.unusedVariables false
@@ -153,6 +154,97 @@ theorem firstDev_cache_history_dependent :
   ⟨[(1, .call (Version.mk' 0 [1, 0] none none none none)), (1, .compute), (1, .store),
     (2, .call (Version.mk' 0 [1, 0, 0] none none none none))], 2, Version.mk' 0 [1, 0, 0] none none none none,
    (Version.mk' 0 [1, 0] none none none none).firstDevrelease, List.mem_cons_self, by decide⟩
+
+/-! ### (H1) characterised for the concrete simplifier -/
+
+/-- **Stack irrelevance.**  Run `cnf` with the frames the calling thread already has (`frn`) kept apart from the frames
+this call pushes itself (`own`); if no `detect_recursion` test is ever answered by one of the caller's frames (the
+taint-tracking run of Model/ConcTaint.lean does not end in the taint mark), then the model's `cnf` returns the same
+value with the caller's frames on the stack and without them.  By induction on the fuel over the whole mutual block
+(`taintAt`), for every fuel. -/
+theorem cnf_stack_irrelevant (fuel : Nat) (own frn : Stack) (m : M)
+    (h : cnfT fuel own frn m ≠ .error taint) : cnf fuel (own ++ frn) m = cnf fuel own m := by
+  have h1 := (taintAt fuel).cnf own frn (own ++ frn) m (between_append own frn)
+  have h2 := (taintAt fuel).cnf own frn own m (between_own own frn)
+  rcases h1 with h1 | h1
+  · exact absurd h1 h
+  · rcases h2 with h2 | h2
+    · exact absurd h2 h
+    · rw [← h1, ← h2]
+
+theorem dnf_stack_irrelevant (fuel : Nat) (own frn : Stack) (m : M)
+    (h : dnfT fuel own frn m ≠ .error taint) : dnf fuel (own ++ frn) m = dnf fuel own m := by
+  have h1 := (taintAt fuel).dnf own frn (own ++ frn) m (between_append own frn)
+  have h2 := (taintAt fuel).dnf own frn own m (between_own own frn)
+  rcases h1 with h1 | h1
+  · exact absurd h1 h
+  · rcases h2 with h2 | h2
+    · exact absurd h2 h
+    · rw [← h1, ← h2]
+
+/-- the guarded functions themselves (`intersection(*ms)`, `union(*ms)`) -/
+theorem intersection_stack_irrelevant (fuel : Nat) (own frn : Stack) (ms : List M)
+    (h : intersectionFT fuel own frn ms ≠ .error taint) :
+    intersectionF fuel (own ++ frn) ms = intersectionF fuel own ms := by
+  have h1 := (taintAt fuel).interF own frn (own ++ frn) ms (between_append own frn)
+  have h2 := (taintAt fuel).interF own frn own ms (between_own own frn)
+  rcases h1 with h1 | h1
+  · exact absurd h1 h
+  · rcases h2 with h2 | h2
+    · exact absurd h2 h
+    · rw [← h1, ← h2]
+
+theorem union_stack_irrelevant (fuel : Nat) (own frn : Stack) (ms : List M)
+    (h : unionFT fuel own frn ms ≠ .error taint) :
+    unionF fuel (own ++ frn) ms = unionF fuel own ms := by
+  have h1 := (taintAt fuel).uniF own frn (own ++ frn) ms (between_append own frn)
+  have h2 := (taintAt fuel).uniF own frn own ms (between_own own frn)
+  rcases h1 with h1 | h1
+  · exact absurd h1 h
+  · rcases h2 with h2 | h2
+    · exact absurd h2 h
+    · rw [← h1, ← h2]
+
+/-- `StackPure` is genuinely false for the guarded functions: the same arguments under a stack that already holds
+them raise RecursionError (which the enclosing `except RecursionError` turns into a different result). -/
+theorem stackPure_false_in_general :
+    intersectionF 1 [(false, [])] [] = .error .recursion ∧ intersectionF 1 [] [] ≠ .error .recursion ∧
+    intersectionFT 1 [] [(false, [])] [] = .error taint := by
+  refine ⟨?_, ?_, ?_⟩
+  · rw [intersectionF.eq_def]; simp [Stack.has, M.beqList]
+  · rw [intersectionF.eq_def]; simp only []; rw [dnf.eq_def]; simp [Stack.has]
+  · rw [intersectionFT.eq_def]; simp [Stack.has, M.beqList, taint]
+
+/-- **memo_transparent for the `cnf` cache as the code runs it**: the wrapped function reads the calling thread's
+recursion stack (the context of each step); keys are coherent markers.  If, for every stack that occurs and every key
+that is called, the taint-tracking run is taint-free (in particular: every call made from an empty stack), then in
+every interleaving every completed call returned the context-free `cnf fuel [] k`.  No purity hypothesis, no
+congruence hypothesis. -/
+theorem memo_transparent_cnf_untainted (hashOf : HIn → Nat) (fuel : Nat)
+    (sched : List (Stack × Tid × MAct CM))
+    (hfree : ∀ e, e ∈ sched → ∀ e', e' ∈ sched → ∀ k, e'.2.2 = .call k → cnfT fuel [] e.1 k.1 ≠ .error taint)
+    (t : Tid) (k : CM) (r : PyM M)
+    (h : (t, k, r) ∈ (runCtx (fun stk (k : CM) => cnf fuel stk k.1) (fun k => hashOf (mHash k.1))
+        (fun a b => M.beq a.1 b.1) MState.init sched).log) :
+    r = cnf fuel [] k.1 := by
+  rw [runCtx_pure_on (fun stk (k : CM) => cnf fuel stk k.1) _ _ [] (fun k => ∀ e, e ∈ sched → cnfT fuel [] e.1 k.1 ≠ .error taint)
+    sched (fun e' he' k hk e he => hfree e he e' he' k hk)
+    (fun e he k hP => by simpa using cnf_stack_irrelevant fuel [] e.1 k.1 (hP e he))
+    MState.init (by intro t k hk; simp [MState.init, TMap.get] at hk)] at h
+  exact memo_transparent_cnf hashOf fuel _ t k r h
+
+theorem memo_transparent_dnf_untainted (hashOf : HIn → Nat) (fuel : Nat)
+    (sched : List (Stack × Tid × MAct CM))
+    (hfree : ∀ e, e ∈ sched → ∀ e', e' ∈ sched → ∀ k, e'.2.2 = .call k → dnfT fuel [] e.1 k.1 ≠ .error taint)
+    (t : Tid) (k : CM) (r : PyM M)
+    (h : (t, k, r) ∈ (runCtx (fun stk (k : CM) => dnf fuel stk k.1) (fun k => hashOf (mHash k.1))
+        (fun a b => M.beq a.1 b.1) MState.init sched).log) :
+    r = dnf fuel [] k.1 := by
+  rw [runCtx_pure_on (fun stk (k : CM) => dnf fuel stk k.1) _ _ [] (fun k => ∀ e, e ∈ sched → dnfT fuel [] e.1 k.1 ≠ .error taint)
+    sched (fun e' he' k hk e he => hfree e he e' he' k hk)
+    (fun e he k hP => by simpa using dnf_stack_irrelevant fuel [] e.1 k.1 (hP e he))
+    MState.init (by intro t k hk; simp [MState.init, TMap.get] at hk)] at h
+  exact memo_transparent_dnf hashOf fuel _ t k r h
 
 /-! ### per-thread recursion stacks -/
 
